@@ -31,6 +31,8 @@ impl CharStream {
 }
 #[verifier::external_body]
 fn shim_chars(data: &str) -> (r: CharStream) ensures r.rem@ == data@ { unimplemented!() }
+// a string has no octets exactly when it has no characters, and never fewer octets than characters (UTF-8)
+pub assume_specification<'a> [String::as_bytes] (s: &'a String) -> (r: &'a [u8]) ensures (r@.len() == 0) == (s@.len() == 0), r@.len() >= s@.len();
 // R33: `token == "$ORIGIN"`: which keyword a token is, is not modelled
 #[verifier::external_body]
 fn shim_str_eq(a: &String, b: &str) -> (r: bool) { a == b }
